@@ -38,9 +38,10 @@ var vKeys = map[int]vKey{
 	4: {"id4", "chacha20-ietf-poly1305", "secret-one"},
 	5: {"id5", "bogus-cipher-9000", "secret-five"},
 	6: {"id6", "aes-192-gcm", "secret-four"},
+	7: {"id7", "aes-256-gcm", "secret-one"}, // the secret of key 1 under another cipher: a different key
 }
-var vClassKey = map[int]int{1: 1, 2: 2, 3: 3, 4: 6}
-var vIDNum = map[string]int{"id1": 1, "id2": 2, "id3": 3, "id4": 4, "id5": 5, "id6": 6}
+var vClassKey = map[int]int{1: 1, 2: 2, 3: 3, 4: 6, 5: 7}
+var vIDNum = map[string]int{"id1": 1, "id2": 2, "id3": 3, "id4": 4, "id5": 5, "id6": 6, "id7": 7}
 
 type vSvc struct {
 	Ks []int           `json:"ks"`
@@ -375,7 +376,7 @@ func (d *drv) probe(tag string) {
 	for a := 1; a <= len(d.ports); a++ {
 		addr := d.addr(a)
 		tcpL := false
-		for cs := 1; cs <= 4; cs++ {
+		for cs := 1; cs <= len(vClassKey); cs++ {
 			ln, id, _, err := d.tcpProbe(addr, hello(vKeys[vClassKey[cs]], "127.0.0.1:9"))
 			if err != nil {
 				problems = append(problems, err.Error())
@@ -393,7 +394,7 @@ func (d *drv) probe(tag string) {
 		}
 		if d.udpHeld(addr) {
 			listening = append(listening, []interface{}{"udp", a})
-			for cs := 1; cs <= 4; cs++ {
+			for cs := 1; cs <= len(vClassKey); cs++ {
 				id, err := d.udpProbe(addr, vKeys[vClassKey[cs]])
 				if err != nil {
 					problems = append(problems, err.Error())
